@@ -175,6 +175,8 @@ class CommandResponse(Response):
                 merge_key = resp.merge_key
             except TypeError:
                 self._untagged.append(resp)
+                if resp.merge_barrier:
+                    self._mergeable.clear()
             else:
                 key = (type(resp), merge_key)
                 try:
@@ -260,6 +262,15 @@ class UntaggedResponse(Response):
 
         """
         raise TypeError(self)
+
+    @property
+    def merge_barrier(self) -> bool:
+        """True if responses added after this one must not be merged into
+        responses added before it, e.g. because it changes the message
+        sequence numbers that later responses refer to.
+
+        """
+        return False
 
     def merge(self: ResponseT, other: ResponseT) -> ResponseT:
         """Return a copy of this response with the other response merged in.
